@@ -38,7 +38,9 @@ class Reject(Exception):
 # op table: name -> (sg implementation, torch implementation); both take (list of tensors, params) and return a tensor
 # or a tuple of tensors
 def _key(p):
-    return tuple(slice(*k) if isinstance(k, list) else k for k in p["key"])
+    # key entries: int | [lo, hi, step] (a slice) | {"idx": [...]} (an index list, may repeat positions / use negative aliases)
+    k = tuple(slice(*k) if isinstance(k, list) else (k["idx"] if isinstance(k, dict) else k) for k in p["key"])
+    return k if len(k) > 1 or not isinstance(k[0], list) else k[0]
 
 
 def _tup(x):
@@ -171,7 +173,7 @@ class G:
 
     def step(self, nograd=False):
         r = self.rng
-        kinds = ["bin", "bin", "bin", "scalar", "unary", "unary", "act", "act", "matmul", "reduce", "reduce", "shape", "shape", "slice", "list",
+        kinds = ["bin", "bin", "bin", "scalar", "unary", "unary", "act", "act", "matmul", "reduce", "reduce", "shape", "shape", "slice", "slice", "list", "list",
                  "unbind", "linear", "conv", "conv", "pool", "pool", "bn", "softmax", "loss", "square"]
         for _ in range(30):
             kind = r.choice(kinds)
@@ -278,35 +280,54 @@ class G:
                 if rank == 0:
                     continue
                 key, so = [], []
-                for s in sa[: r.randint(1, rank)]:
+                nk = r.randint(1, rank)
+                adv = r.randrange(nk) if r.random() < 0.45 else None      # position of an index list (advanced indexing)
+                for j, sdim in enumerate(sa[:nk]):
                     c = r.random()
-                    if c < 0.3 and s > 0:
-                        key.append(r.randrange(s))
+                    if j == adv:
+                        m = r.randint(2, 4)
+                        idx = [r.randrange(sdim) for _ in range(m)]
+                        if r.random() < 0.7:
+                            idx[r.randrange(1, m)] = idx[0]                 # a repeated position
+                        if r.random() < 0.5:
+                            q = r.randrange(m); idx[q] = idx[q] - sdim       # the same position through its negative alias
+                        key.append({"idx": idx}); so.append(m)
+                    elif c < 0.3 and adv is None:
+                        key.append(r.randrange(sdim))
                     else:
-                        lo = r.randrange(s); hi = r.randint(lo + 1, s); stp = r.choice([1, 1, 2])
+                        lo = r.randrange(sdim); hi = r.randint(lo + 1, sdim); stp = r.choice([1, 1, 2])
                         key.append([lo, hi, stp]); so.append(len(range(lo, hi, stp)))
                 so = tuple(so) + sa[len(key):]
                 return self.emit("slice", [a], [so], {"key": key}, nograd=nograd)
             if kind == "list":
                 op = r.choice(["concat", "stack"])
-                b = self.pick(lambda i: self.shape[i] == sa) if r.random() < 0.7 else a
-                if b is None:
-                    b = a
-                if a == b and self.fan[a] + 2 > self.max_fanout:
-                    continue
                 if rank == 0 and op == "concat":
+                    continue
+                if op == "stack" and rank >= 4:
+                    continue
+                # 2-4 equal-sized pieces; constants (requires_grad=False) and differentiable operands in every position
+                items = [a]
+                for _ in range(r.randint(1, 3)):
+                    c = r.random()
+                    if c < 0.35:
+                        items.append(self.leaf(sa, req=False))
+                    elif c < 0.6:
+                        items.append(self.leaf(sa, req=True))
+                    else:
+                        b = self.pick(lambda i: self.shape[i] == sa)
+                        items.append(b if b is not None else self.leaf(sa))
+                r.shuffle(items)
+                if any(self.fan[i] + items.count(i) > self.max_fanout for i in set(items)):
                     continue
                 if op == "concat":
                     d = r.randrange(rank)
-                    so = sa[:d] + (2 * sa[d],) + sa[d + 1:]
+                    so = sa[:d] + (len(items) * sa[d],) + sa[d + 1:]
                 else:
-                    if rank >= 4:
-                        continue
                     d = r.randint(0, rank)
-                    so = sa[:d] + (2,) + sa[d:]
-                if int(np.prod(so)) > 300:
+                    so = sa[:d] + (len(items),) + sa[d:]
+                if int(np.prod(so)) > 400:
                     continue
-                return self.emit(op, [a, b], [so], {"dim": d}, nograd=nograd)
+                return self.emit(op, items, [so], {"dim": d}, nograd=nograd)
             if kind == "unbind":
                 if rank == 0:
                     continue
@@ -318,24 +339,24 @@ class G:
                 if rank < 2:
                     continue
                 o = r.randint(1, 3)
-                w = self.leaf((o, sa[-1]))
-                args = [a, w] + ([self.leaf((o,))] if r.random() < 0.7 else [])
+                w = self.leaf((o, sa[-1]), req=r.random() < 0.6)
+                args = [a, w] + ([self.leaf((o,), req=r.random() < 0.6)] if r.random() < 0.7 else [])
                 return self.emit("linear", args, [sa[:-1] + (o,)], nograd=nograd)
             if kind == "conv":
                 if rank == 3 and sa[2] >= 3:
                     k, o = r.randint(1, 2), r.randint(1, 2)
                     stride, pad, dil = r.choice([1, 2]), r.choice([0, 1]), 1
                     L = (sa[2] + 2 * pad - dil * (k - 1) - 1) // stride + 1
-                    w = self.leaf((o, sa[1], k))
-                    args = [a, w] + ([self.leaf((o,))] if r.random() < 0.6 else [])
+                    w = self.leaf((o, sa[1], k), req=r.random() < 0.6)
+                    args = [a, w] + ([self.leaf((o,), req=r.random() < 0.6)] if r.random() < 0.6 else [])
                     return self.emit("conv1d", args, [(sa[0], o, L)], {"stride": stride, "pad": pad, "dil": dil}, nograd=nograd)
                 if rank == 4 and sa[2] >= 3 and sa[3] >= 3:
                     k, o = 2, r.randint(1, 2)
                     stride, pad, dil = r.choice([1, 2]), r.choice([0, 1]), 1
                     H = (sa[2] + 2 * pad - dil * (k - 1) - 1) // stride + 1
                     Wd = (sa[3] + 2 * pad - dil * (k - 1) - 1) // stride + 1
-                    w = self.leaf((o, sa[1], k, k))
-                    args = [a, w] + ([self.leaf((o,))] if r.random() < 0.6 else [])
+                    w = self.leaf((o, sa[1], k, k), req=r.random() < 0.6)
+                    args = [a, w] + ([self.leaf((o,), req=r.random() < 0.6)] if r.random() < 0.6 else [])
                     return self.emit("conv2d", args, [(sa[0], o, H, Wd)], {"stride": stride, "pad": pad, "dil": dil}, nograd=nograd)
                 continue
             if kind == "pool":
